@@ -58,7 +58,7 @@ def runner(prop, fam, tier, seed, replay=None):
             s = json.load(open(st))
             cov["per_instance_table"] = {k: dict(nodes=v[0], edges=v[1], closed=bool(v[2])) for k, v in (s.get("per_system") or {}).items()}
             cov["circuit_ids_keyed"] = s.get("circuit_ids")
-        tmp = evp + ".tmp"
+        tmp = evp + ".tmp%d" % os.getpid()
         json.dump(ev, open(tmp, "w"), indent=1, sort_keys=True)
         os.replace(tmp, evp)
     except Exception:
